@@ -1,8 +1,10 @@
 #include "../world.h"
 namespace sim {
 World *make_world_q();
+World *make_world_h();
 World *make_world(const std::string &name) {
   if (name == "Q") return make_world_q();
+  if (name == "H") return make_world_h();
   return nullptr;
 }
 }  // namespace sim
